@@ -76,4 +76,12 @@ def import_jesse(repo: str = '/repo'):
     import jesse.research  # noqa
     import jesse.modes.backtest_mode  # noqa
     import jesse.strategies  # noqa
+    # warm the numba kernels a session needs by calling them as pure functions, so that forked
+    # children inherit the compiled code instead of each loading it from the on-disk cache
+    try:
+        import numpy as np
+        from jesse.models.FuturesExchange import find_order_index
+        find_order_index(np.zeros((2, 2)), np.zeros(2))
+    except Exception:
+        pass
     return jesse
